@@ -16,6 +16,8 @@
 import ast
 
 from sa import core
+from sa import pat
+from sa import tpl
 from sa import rules_df
 from sa import setalg
 from sa.formula import atom, implies, equivalent, TRUE
@@ -24,17 +26,6 @@ from sa.props import C05 as _c05
 
 RD = 'malt/pyct/static_analysis/reaching_definitions.py'
 CF = 'malt/converters/control_flow.py'
-
-
-def atoms(e):
-  t = core.norm(e)
-  return {
-      'node_scope.bound': 'BOUND', 'node_scope.globals': 'GLOBALS',
-      'node_scope.deleted': 'DELETED', 'node_scope.modified': 'MODIFIED',
-      'node_scope.params': 'PARAMS', 'node_scope.read': 'READ',
-      'node_scope.nonlocals': 'NONLOCALS',
-      'self.out[n]': 'NB_OUT', 'self.in_[n]': 'NB_IN',
-  }.get(t)
 
 
 def check(model, rep, tier):
@@ -86,15 +77,14 @@ def check(model, rep, tier):
                'counterexample': cex}, line=m.node.lineno,
               witness='a join that loses the symbols of one operand')
   orm = ns.methods['__or__']
-  src = core.norm(orm.node)
-  rep.check('result.value[s].update(other_infos)' in src and
-            'result.value[s] = set(other_infos)' in src, 'RD-STATE',
+  rep.check(pat.has(orm.node, '_R_.value[_S_].update(_O_)') and
+            pat.has(orm.node, '_R_.value[_S_] = set(_O_)'), 'RD-STATE',
             '%s:definition-sets-united' % orm.site,
             'for a symbol present on both sides the definition sets must be '
             'united (update), not replaced', line=orm.node.lineno)
 
   # ---------------------------------------------------------------- RD-TRANSFER
-  ev, rets = rules_df.eval_visit_node(model, vn, atoms, {'_NodeState'})
+  ev, rets = rules_df.eval_visit_node(model, vn, rules_df.df_atoms(vn), {'_NodeState'})
   pc, v, env = rules_df.final_env(rets)
   out = env.get('@self.out[node]')
   inn = env.get('@self.in_[node]')
@@ -134,7 +124,7 @@ def check(model, rep, tier):
   rules_df.check_driver(model, rep, 'RD-DRIVER')
   ta = model.cls(RD, 'TreeAnnotator')
   vf = ta.methods['visit_FunctionDef']
-  rep.check('analyzer.visit_forward()' in core.norm(vf.node), 'RD-DRIVER',
+  rep.check(pat.has(vf.node, '_A_.visit_forward()'), 'RD-DRIVER',
             '%s:forward' % vf.site, 'reaching definitions is a forward analysis',
             line=vf.node.lineno, nontrivial=False)
 
@@ -147,14 +137,18 @@ def check(model, rep, tier):
   facts = {}
   if ok:
     lp = loops[0]
-    rd_src = core.norm(ag.node)
+    ap = ag.params()[0]
     facts = {'loop_over': core.norm(lp.iter), 'body': [core.norm(s) for s in lp.body]}
-    ok = core.norm(lp.iter) == 'preds' and len(lp.body) == 1 and core.norm(
-        lp.body[0]) == 'node_defined_in |= set(self.current_analyzer.out[%s].value.keys())' \
-        % core.norm(lp.target) and \
-        'preds = self.current_analyzer.graph.stmt_prev[node]' in rd_src and \
-        'anno.setanno(node, anno.Static.DEFINED_VARS_IN, frozenset(node_defined_in))' \
-        in rd_src
+    lv = core.norm(lp.target)
+    it = tpl.xnorm(ag, lp.iter, lp.iter)
+    ok = it == 'self.current_analyzer.graph.stmt_prev[%s]' % ap and len(lp.body) == 1
+    if ok:
+      b = pat.match('_S_ |= set(self.current_analyzer.out[%s].value.keys())' % lv,
+                    lp.body[0]) or pat.match(
+                        '_S_.update(self.current_analyzer.out[%s].value.keys())' % lv,
+                        lp.body[0])
+      ok = b is not None and pat.has(
+          ag.node, 'anno.setanno(%s, anno.Static.DEFINED_VARS_IN, frozenset(_S_))' % ap, b)
   rep.check(ok, 'RD-ENTRY', '%s:all-statement-predecessors' % ag.site,
             'defined-on-entry must unite the symbols of out[p] for every '
             'statement predecessor p (jump nodes included: they pass their '
@@ -169,11 +163,13 @@ def check(model, rep, tier):
               '%s must record the defined-on-entry set' % h[6:],
               line=m.node.lineno if m else None)
   vfor = ta.methods['visit_For']
-  src = core.norm(vfor.node)
-  ok = 'self.current_cfg_node = self.current_analyzer.graph.index[node.iter]' in src \
-      and src.index('graph.index[node.iter]') < src.index(
-          'node.target = self.visit(node.target)') < src.index(
-              'self.current_cfg_node = parent')
+  fp = vfor.params()[0]
+  body = vfor.node.body
+  b = pat.seq(body, ['_P_ = self.current_cfg_node',
+                     'self.current_cfg_node = self.current_analyzer.graph.index[%s.iter]' % fp,
+                     '%s.target = self.visit(%s.target)' % (fp, fp),
+                     'self.current_cfg_node = _P_'])
+  ok = b is not None
   rep.check(ok, 'RD-ENTRY', '%s:for-target-at-header' % vfor.site,
             'the loop target must be annotated with the state of the loop header '
             'node (node.iter), where its assignment is recorded', line=vfor.node.lineno)
